@@ -525,11 +525,13 @@ def real_run(cfg, plan=(), seed=0, k=1, lr=0.05, numeric_hook=None, time_flag=Fa
                       neg_batch_size=(cfg["negB"] if cfg["negB"] else None), k=k, lr=lr,
                       starting_epoch=cfg["startEp"], callbacks=cbs, time=time_flag,
                       optimizer=make_optimizer(R, opt_base))
-        if opt_args:
-            kwargs["optimizer_args"] = dict(opt_args)
+        # the caller's own dictionaries are handed over (not copies): they are the caller's, fit() may read them only
+        if opt_args is not None:
+            kwargs["optimizer_args"] = opt_args
         if cfg["sched"]:
             kwargs["scheduler"] = make_scheduler(R, sched_base) if sched_base is not None else make_scheduler(R)
-            kwargs["scheduler_args"] = sched_args or {"step_size": 1, "gamma": 0.5}
+            kwargs["scheduler_args"] = sched_args if sched_args else {"step_size": 1, "gamma": 0.5}
+        args_before = repr((kwargs.get("optimizer_args"), kwargs.get("scheduler_args")))
         if bases is not None:
             kwargs["input_bases"] = bases
         err = None
@@ -567,6 +569,7 @@ def real_run(cfg, plan=(), seed=0, k=1, lr=0.05, numeric_hook=None, time_flag=Fa
                    rng_end=common.sha(torch.get_rng_state().numpy().tobytes()),
                    data_same=same and repr(data_rows) == data_before,
                    bases_same=(bases is None or bool((bases == bases_before).all())),
+                   args_same=repr((kwargs.get("optimizer_args"), kwargs.get("scheduler_args"))) == args_before,
                    nn_state=nn_state, numeric=R.numeric, lr_after=R.lr_after, stdout=out.getvalue(),
                    loglines=R.loglines, tmpdir=tmpdir, nv=nv, R=R)
         if prev is not None and "_tmp" in prev:
